@@ -393,6 +393,16 @@ class AbstractDateTime(AnyAtomicType):
         return cast(tuple[int, int, int], self._dt.isocalendar())
 
     @classmethod
+    def validate(cls, value: object) -> None:
+        if isinstance(value, str):
+            try:
+                cls.fromstring(value)  # the pattern and the constraints on the values
+            except OverflowError:
+                raise cls._invalid_value(value) from None
+        else:
+            super().validate(value)
+
+    @classmethod
     def fromstring(cls: type[DT], datetime_string: str,
                    tzinfo: datetime.tzinfo | None = None) -> DT:
         """
@@ -1080,6 +1090,16 @@ class Duration(AnyAtomicType):
         elif value[-1] == 'P':
             value += 'T0S'
         return value
+
+    @classmethod
+    def validate(cls, value: object) -> None:
+        if isinstance(value, str):
+            try:
+                cls.fromstring(value)  # the pattern and the constraints on the values
+            except OverflowError:
+                raise cls._invalid_value(value) from None
+        else:
+            super().validate(value)
 
     @classmethod
     def fromstring(cls: type[_D], text: str) -> _D:
